@@ -70,6 +70,12 @@ namespace vf_stack
             keep.push_back(u->src);
             auto  bs   = u->src->fix_block_size(bs0);
             void* mem  = place_storage(u->obj, u->src->probe(), where);
+            if (auto pr = u->src->probe())
+                if (pr->region && r.chance(50))
+                {
+                    pr->region_down = true; // later blocks at lower addresses: marker order must not depend on block addresses
+                    flag("descending-blocks");
+                }
             u->obj.obj = u->src->template construct<S>(mem, bs);
             u->src->check();
             if (u->src->outstanding() != 1)
@@ -404,6 +410,108 @@ namespace vf_stack
             }
         }
 
+        // memory_stack_raii_unwind: the scope guard unwinds exactly once, when the armed object dies; release(), move construction and
+        // move assignment hand the duty on
+        void do_raii(unit& u)
+        {
+            S& s     = *u.obj;
+            using UW = memory_stack_raii_unwind<S>;
+            int variant = int(r.below(4));
+            static const char* names[] = {"plain", "release", "move-construct", "move-assign"};
+            op("raii unwinder scope (%s)", names[variant]);
+            auto cap0      = s.capacity_left();
+            auto id_floor  = u.sh.next_id;
+            auto log_pos   = u.log.size();
+            auto block_idx = u.used.size() - 1;
+            auto nmarks    = u.marks.size();
+            auto rel0      = u.src->releases();
+            std::unique_ptr<UW> outer;
+            if (variant == 3)
+            {
+                outer.reset(new UW(s));
+                outer->release(); // holds nothing: assigning to it must not unwind anything
+            }
+            std::unique_ptr<UW> uw(new UW(s));
+            if (!uw->will_unwind() || !(uw->get_marker() == s.top()))
+                viol("C06", key("C06", "raii-marker"), "a fresh unwinder is not armed with the current top");
+            int n = int(r.range(1, 6));
+            for (int i = 0; i < n; ++i)
+                do_alloc(u, false);
+            bool expect_unwound = true;
+            auto dying_check = [&] {
+                for (auto& kv : u.sh.live)
+                    if (kv.second.id >= id_floor)
+                        u.sh.verify(kv.first, kv.second);
+            };
+            if (variant == 0)
+            {
+                dying_check();
+                uw.reset();
+            }
+            else if (variant == 1)
+            {
+                uw->release();
+                if (uw->will_unwind())
+                    viol("C06", key("C06", "raii-release"), "will_unwind() is true after release()");
+                uw.reset();
+                expect_unwound = false;
+            }
+            else if (variant == 2)
+            {
+                std::unique_ptr<UW> uw2(new UW(std::move(*uw)));
+                auto cap_mid = s.capacity_left();
+                uw.reset(); // the moved-from guard dies: nothing may be unwound yet
+                u.src->check();
+                if (s.capacity_left() != cap_mid)
+                    viol("C06", key("C06", "raii-moved-from-unwound"), "destroying a moved-from unwinder changed capacity_left() from %zu to %zu", cap_mid,
+                         s.capacity_left());
+                u.sh.sweep(); // allocations of the scope are still alive
+                do_alloc(u, false);
+                dying_check();
+                uw2.reset();
+            }
+            else
+            {
+                *outer = std::move(*uw);
+                auto cap_mid = s.capacity_left();
+                uw.reset(); // moved-from
+                u.src->check();
+                if (s.capacity_left() != cap_mid)
+                    viol("C06", key("C06", "raii-moved-from-unwound"), "destroying a moved-from unwinder changed capacity_left() from %zu to %zu", cap_mid,
+                         s.capacity_left());
+                u.sh.sweep(); // still alive: the duty went to `outer`
+                if (!outer->will_unwind())
+                    viol("C06", key("C06", "raii-move-assign"), "the assigned-to unwinder is not armed");
+                do_alloc(u, false);
+                dying_check();
+                outer.reset();
+            }
+            u.src->check();
+            frg.check("raii unwinder");
+            if (expect_unwound)
+            {
+                u.sh.drop_if([&](char*, const shadow_ent& e) { return e.id >= id_floor; });
+                if (s.capacity_left() != cap0)
+                    viol("C06", key("C06", "capacity-after-unwind"), "capacity_left() after the unwinder's scope is %zu, it was %zu when the scope began",
+                         s.capacity_left(), cap0);
+                if (u.src->releases() != rel0)
+                    viol("C06", key("C06", "unwind-released-upstream"), "the unwinder returned blocks to the block source");
+                if (block_idx + 1 < u.used.size())
+                {
+                    u.cached += u.used.size() - 1 - block_idx;
+                    for (auto i = block_idx + 1; i < u.used.size(); ++i)
+                        u.block_end.erase(u.used[i]);
+                    u.used.resize(block_idx + 1);
+                    flag("unwind-across-blocks");
+                }
+                u.log.resize(log_pos);
+                u.marks.erase(u.marks.begin() + long(nmarks), u.marks.end());
+                flag("unwind");
+            }
+            u.sh.sweep(); // everything older is untouched
+            count_ev("raii_scopes");
+        }
+
         void do_shrink(unit& u)
         {
             S& s = *u.obj;
@@ -592,8 +700,10 @@ namespace vf_stack
                     do_mark(u);
                 else if (x < aw + 290)
                     do_unwind(u);
-                else if (x < aw + 310)
+                else if (x < aw + 302)
                     do_shrink(u);
+                else if (x < aw + 310)
+                    do_raii(u);
                 else if (x < aw + 325)
                     do_move_construct(u);
                 else if (x < aw + 338)
